@@ -188,7 +188,9 @@ def inject(rnd, cls, text, variables, terms):
         if not cands:
             return None
         j = rnd.choice(cands)
-        return " ".join(toks[:j] + ["nosuchterm"] + toks[j + 1 :])
+        # (a name no variable has; or the right name with punctuation stuck to it, which is another - unknown - name)
+        wrong = rnd.choice(["nosuchterm", "nosuchterm", toks[j] + ".", toks[j] + ";", f"'{toks[j]}'", f"[{toks[j]}]", toks[j] + "?", "-" + toks[j]])
+        return " ".join(toks[:j] + [wrong] + toks[j + 1 :])
     if cls == "unknown hedge":
         k = rnd.choice(is_at)
         if toks[k + 1] == "any":
